@@ -303,27 +303,139 @@ def rule_r1c(chk, db, cfgname):
     chk.count('c06.r1c.key_slot_accesses', n)
 
 
+def _counter_event(ev):
+    """('load'|'rmw', line) if ev accesses Impl::meshIDCounter_"""
+    if ev.get('k') == 'call' and ev.get('recv') is not None:
+        r = T.strip(ev['recv'])
+        if r.get('k') in ('mem', 'var') and r.get('n', '').endswith('meshIDCounter_'):
+            name = T.short(ev.get('fn', ''))
+            kind = 'rmw' if name.startswith(('fetch_', 'exchange', 'compare_exchange', 'operator++', 'operator+=')) \
+                else 'load'
+            return kind, ev.get('ln')
+    return None
+
+
 def rule_r2(chk, db, cfgname, tab):
-    chk.rule('C06.R2', 'Impl::meshIDCounter_ is read at most once per function: every consumer of an ID offset '
-             'uses one snapshot')
-    n = 0
+    chk.rule('C06.R2', 'one logical ID-offset computation uses one snapshot of Impl::meshIDCounter_: a function takes '
+             'at most one snapshot (a plain load, or a call to a helper that returns one) and, if it takes one, calls '
+             'no other function that takes its own')
+    direct = {}        # fn key -> [(kind, line)]
     for fn in db.functions.values():
-        hits = []
         for b in fn.get('blocks', []):
             for ev in b['ev']:
-                if ev.get('k') == 'call' and ev.get('recv') is not None:
-                    r = T.strip(ev['recv'])
-                    if r.get('k') in ('mem', 'var') and r.get('n', '').endswith('meshIDCounter_'):
-                        hits.append(ev)
-        if hits:
-            n += len(hits)
-            ok = len(hits) <= 1
-            chk.obligation(ok, {'function': fn['name'], 'meshIDCounter_ accesses': [h.get('ln') for h in hits]})
-            if not ok:
-                chk.violation('C06.R2', fn, 'meshIDCounter_ read %d times' % len(hits),
-                              'two reads of the global mesh-ID counter can disagree when another thread reserves '
-                              'IDs in between', line=hits[0].get('ln'), cfg=cfgname)
+                ce = _counter_event(ev)
+                if ce:
+                    direct.setdefault(fn['key'], []).append(ce)
+    if not direct:
+        raise AnalysisBroken('C06.R2: no access to meshIDCounter_ found')
+    # helpers whose return value is a snapshot
+    returns_snapshot = set()
+    for k, evs in direct.items():
+        fn = db.functions[k]
+        if not any(kind == 'load' for kind, _ in evs):
+            continue
+        tainted = set()
+        for b in fn['blocks']:
+            for ev in b['ev']:
+                if ev.get('k') == 'decl':
+                    for v in ev['vars']:
+                        if v.get('init') is not None and any(_counter_event(x) for x in T.walk(v['init'])):
+                            tainted.add(v['n'])
+                if ev.get('k') == 'return' and 'e' in ev:
+                    if any(_counter_event(x) or (x.get('k') == 'var' and x['n'] in tainted)
+                           for x in T.walk(ev['e'])):
+                        returns_snapshot.add(k)
+    # transitive "takes a snapshot somewhere inside"
+    loads = {k for k, evs in direct.items() if any(kind == 'load' for kind, _ in evs)}
+    calls = {}
+    for fn in db.functions.values():
+        outs = []
+        for b in fn.get('blocks', []):
+            for ev in b['ev']:
+                if ev.get('k') in ('call', 'ctor') and ev.get('fk'):
+                    outs.append((ev['fk'], ev.get('ln')))
+        calls[fn['key']] = outs
+    takes = set(loads)
+    changed = True
+    while changed:
+        changed = False
+        for k, outs in calls.items():
+            if k not in takes and any(o in takes for o, _ in outs):
+                takes.add(k)
+                changed = True
+    n = 0
+    for fn in db.functions.values():
+        k = fn['key']
+        own = [ln for kind, ln in direct.get(k, []) if kind == 'load']
+        own += [ln for o, ln in calls.get(k, []) if o in returns_snapshot]
+        n += len(direct.get(k, []))
+        if not own:
+            continue
+        nested = [(db.functions[o]['name'], ln) for o, ln in calls.get(k, [])
+                  if o in takes and o not in returns_snapshot and o in db.functions]
+        ok = len(own) <= 1 and not nested
+        chk.obligation(ok, {'function': fn['name'], 'snapshots taken at lines': own,
+                            'callees taking their own snapshot': nested})
+        if not ok:
+            chk.violation('C06.R2', fn, 'meshIDCounter_ snapshots %d+%d' % (len(own), len(nested)),
+                          'the global mesh-ID counter is sampled more than once for one ID-offset computation '
+                          '(lines %s; callees with their own snapshot: %s): another thread reserving IDs in '
+                          'between makes triangle IDs and relation keys disagree' % (own, nested),
+                          line=own[0], cfg=cfgname)
     chk.count('c06.r2.counter_accesses', n)
+
+
+def rule_r5(chk, db, cfgname, tab):
+    chk.rule('C06.R5', 'a lock that guards data shared by copying its owner travels with that data: the copy '
+             'constructor and copy assignment of the owner copy the payload pointer and the lock together, and the '
+             'lock is held through a shared pointer')
+    for ent in tab.get('lock_travels_with_payload', []):
+        cls = None
+        for c in db.classes.values():
+            if c['qname'] == ent['class'] and c.get('tmpl'):
+                cls = c
+                break
+        if cls is None:
+            raise AnalysisBroken('C06.R5: no instantiation of %s found' % ent['class'])
+        ft = {f['n']: db.types[cls['tu']][f['t']] for f in cls['fields']}
+        if ent['payload'] not in ft or ent['lock'] not in ft:
+            raise AnalysisBroken('C06.R5: fields %s/%s not found in %s' % (ent['payload'], ent['lock'], ent['class']))
+        ok = ft[ent['lock']].get('r') == 'std::shared_ptr'
+        chk.obligation(ok, {'class': cls['name'], 'lock field': ent['lock'], 'type': ft[ent['lock']]['s']})
+        if not ok:
+            chk.violation('C06.R5', cls['name'], 'lock %s by value' % ent['lock'],
+                          'copies of %s share %s but each copy gets its own %s: two owners of the same payload lock '
+                          'different mutexes' % (ent['class'], ent['payload'], ent['lock']),
+                          file=cls['file'], line=cls['line'], cfg=cfgname)
+        n = 0
+        for fn in db.functions.values():
+            if T.basename(fn.get('cls', '') or '') != ent['class'] or not fn.get('blocks'):
+                continue
+            is_copy = fn.get('kind') == 'ctor' and len(fn['params']) == 1 and \
+                db.T(fn, fn['params'][0]['t']).get('r') == ent['class']
+            is_assign = fn.get('op') == '='
+            if not (is_copy or is_assign):
+                continue
+            n += 1
+            copied = set()
+            for b in fn['blocks']:
+                for ev in b['ev']:
+                    if ev.get('k') == 'init' and ev.get('written'):
+                        copied.add(ev['n'])
+                    if ev.get('k') == 'call' and ev.get('op') == '=' and ev.get('recv') is not None:
+                        r = T.strip(ev['recv'])
+                        if r.get('k') == 'mem':
+                            copied.add(r['n'])
+                    if ev.get('k') == 'bin' and ev.get('op') == '=':
+                        l = T.strip(ev['l'])
+                        if l.get('k') == 'mem':
+                            copied.add(l['n'])
+            ok = (ent['payload'] in copied) == (ent['lock'] in copied)
+            chk.obligation(ok, {'function': fn['name'], 'fields copied': sorted(copied)})
+            if not ok:
+                chk.violation('C06.R5', fn, 'copies %s without %s' % (ent['payload'], ent['lock']),
+                              'the copy shares the payload but not the lock that guards it', cfg=cfgname)
+        chk.count('c06.r5.copy_operations', n)
 
 
 def lock_class(db, fn, lid):
@@ -577,6 +689,7 @@ def main(chk, tier):
         rule_r2(chk, db, cfgname, tab)
         rule_r3(chk, db, cfgname, tab)
         rule_r4(chk, db, cfgname)
+        rule_r5(chk, db, cfgname, tab)
     n = len(configs)
     chk.floor('c06.r1.accesses', 90 * n)
     chk.floor('c06.r1.lock_acquisitions', 15 * n)
@@ -585,6 +698,7 @@ def main(chk, tier):
     chk.floor('c06.r2.counter_accesses', 1 * n)
     chk.floor('c06.r3.lock_classes', 4 * n)
     chk.floor('c06.r4.cas_sites', 1 * n)
+    chk.floor('c06.r5.copy_operations', 1 * n)
     return chk.finish(
         'Lockset (guarded-by) analysis of every access to the library\'s lazily mutated shared fields over the '
         'CFGs (with implicit destructors) of all functions, in both MANIFOLD_PAR configurations, plus atomic-only '
